@@ -21,6 +21,6 @@ def _judge(run):
     return [], bool(nt)
 
 
-P = ScenarioProperty(PROP, {"levels": (1, 3), "cap": (7, 12)}, lambda sc: [C07Checker(sc)], _judge, quick=1600, thorough=30000)
+P = ScenarioProperty(PROP, {"levels": (1, 3), "cap": (7, 12)}, lambda sc: [C07Checker(sc)], _judge, quick=1600, thorough=30000, machine={})
 run_shard = P.run_shard
 replay = P.replay
